@@ -194,8 +194,12 @@ Definition write_fd (t : tree) (q : path) (data : list N) : tree :=
   | _ => t
   end.
 
+(* pwrite: a hole before [off] reads as zeros; writing nothing changes nothing *)
 Definition write_at_data (old : list N) (off : nat) (data : list N) : list N :=
-  firstn off old ++ repeat 0%N (off - length old) ++ data ++ skipn (off + length data) old.
+  match data with
+  | [] => old
+  | _ => firstn off old ++ repeat 0%N (off - length old) ++ data ++ skipn (off + length data) old
+  end.
 
 Definition write_at_fd (t : tree) (q : path) (off : nat) (data : list N) : tree :=
   match node_at t q with
